@@ -308,6 +308,11 @@ class ExprMixin(object):
             for d in reversed(self._closure_frames):
                 if d < len(st.frames) and name in st.frames[d]: return st.frames[d][name]
         mod = self._cur_module()
+        ag = getattr(self.contract, 'abstract_globals', None) or {}
+        if name in ag and mod.relpath == self.fi.file:
+            # a module-level data table is not interpreted: the contract names it (an arbitrary table: sound for every content)
+            self.reg.assume('module-level table %s.%s is treated as an arbitrary table of its declared shape' % (mod.relpath, name))
+            return ag[name]
         r = mod.resolve(name)
         if r is not None:
             if r[0] == 'func': return FuncV(r[1].funcs[r[2]])
@@ -1538,6 +1543,7 @@ class CallMixin(object):
             if args: 
                 a = d[0]
                 if isinstance(a, PyDict): return [(st.new_cell(PyDict(a.d)), st)]
+                if isinstance(a, SymDict): return [(st.new_cell(SymDict(a.has, a.get, a.kty, a.vty)), st)]
                 raise Unsupported('dict(%r)' % (a,))
             return [(st.new_cell(PyDict(dict(kw))), st)]
         if name == 'sorted' and isinstance(d[0], SymSet):
@@ -1654,6 +1660,18 @@ class CallMixin(object):
                 st.cells[recv.id] = PyList(self.sort_network(r.items, st)); return [(NONE, st)]
         if isinstance(r, SymSet) and name == 'add':
             st.cells[recv.id] = SymSet(z3.Store(r.has, self.key_term(args[0], st), z3.BoolVal(True)), r.kty)
+            return [(NONE, st)]
+        if isinstance(r, SymDict) and name == 'update' and len(args) == 1:
+            o = d[0]
+            if isinstance(o, PyDict) and not o.d: return [(NONE, st)]
+            if not isinstance(o, SymDict) or not isinstance(recv, Ref): raise Unsupported('dict.update(%r)' % (o,))
+            # pointwise definition of the updated map (keys of the argument win)
+            nh, ng = fresh(r.has.sort(), 'upd.has'), fresh(r.get.sort(), 'upd.get')
+            kq = z3.Const('k!upd', r.has.sort().domain())
+            st.pc.append(z3.ForAll([kq], z3.And(z3.Select(nh, kq) == z3.Or(z3.Select(r.has, kq), z3.Select(o.has, kq)),
+                                                z3.Select(ng, kq) == z3.If(z3.Select(o.has, kq), z3.Select(o.get, kq), z3.Select(r.get, kq))),
+                                   patterns=[z3.Select(nh, kq), z3.Select(ng, kq)]))
+            st.cells[recv.id] = SymDict(nh, ng, r.kty, r.vty)
             return [(NONE, st)]
         if isinstance(r, SymDict):
             if name == 'get':
@@ -1821,6 +1839,16 @@ class CallMixin(object):
             vd = self.deref(v, st)
             if fty.kind == 'Fn': st.pc.append(field(rec.cls, nm, Fn)(o) == self.as_fn(vd, st))
             elif fty.kind == 'Opt': raise Unsupported('optional field in record conversion')
+            elif fty.kind == 'FnOrDict':
+                if isinstance(vd, SymDict):
+                    st.pc.append(field(rec.cls, nm + '.has', vd.has.sort())(o) == vd.has); st.pc.append(field(rec.cls, nm + '.get', vd.get.sort())(o) == vd.get)
+                else: st.pc.append(field(rec.cls, nm, Fn)(o) == self.as_fn(vd, st))
+            elif isinstance(vd, Sc) and vd.py == 'val' and fty.kind in ('Int', 'Real', 'Str'):
+                # a dynamically typed value stored in a field the contracts read at a fixed type: it must have that type here
+                ok, acc = {'Int': (Val.is_VI(vd.z), Val.vi(vd.z)), 'Str': (Val.is_VS(vd.z), Val.vs(vd.z)),
+                           'Real': (z3.Or(Val.is_VR(vd.z), Val.is_VI(vd.z)), z3.If(Val.is_VI(vd.z), z3.ToReal(Val.vi(vd.z)), Val.vr(vd.z)))}[fty.kind]
+                self.obl('well-typed/%s.%s' % (rec.cls, nm), st, ok)
+                st.pc.append(field(rec.cls, nm, fty.sort())(o) == acc)
             else: st.pc.append(field(rec.cls, nm, fty.sort())(o) == unwrap(vd))
         return Obj(o, rec.cls)
 
@@ -1875,6 +1903,7 @@ class CallMixin(object):
         elif c.result is not None and c.result.kind != 'None':
             res_z = fresh(c.result.sort(), 'res_' + fi.qualname.split('.')[-1])
             res_v = wrap(c.result, res_z)
+            if c.result.kind == 'Dict': res_v = st.new_cell(res_v)      # a fresh mutable dict
         ns_post = NS(self, post_state, frame=frame)
         if self.track_raises and c.on_raise is not None:
             s_r = pre_state.copy(); s_r.frames.pop()
@@ -2075,6 +2104,7 @@ class Executor(Exec, ExprMixin, StmtMixin, CallMixin):
                         elif isinstance(vd, Opt): res_z = vd
                         else: res_z = Opt(z3.BoolVal(False), vd)
                     elif c.result.kind == 'Real' and isinstance(vd, Sc): res_z = self.as_real(vd)
+                    elif c.result.kind == 'Val' and isinstance(vd, (Sc, PyStr)): res_z = to_val(unwrap(vd))
                     elif c.result.kind == 'Fn': res_z = self.as_fn(val, o.state)
                     elif c.result.kind == 'Obj' and isinstance(vd, Rec): res_z = self.rec_to_obj(vd, o.state).z
                     else: res_z = unwrap(vd)
